@@ -608,6 +608,10 @@ def ob_tlv_step(prog):
         cell = Cell(st)
         r = e.call_fn(nxt, [Ref(cell)], {})
         e.notes.append(('state', cell.v))
+        if r.variant == 'Some' and r.fields[0].variant == 'Ok':
+            tv = r.fields[0].fields[0]
+            T = lambda m: inherent(prog, 'TypeLengthValue', m)
+            e.notes.append(('item', e.call_fn(T('len'), [Ref(Cell(tv))], {}), e.call_fn(T('is_empty'), [Ref(Cell(tv))], {}), e.call_fn(T('to_owned'), [Ref(Cell(tv))], {})))
         return r
     res = explore(ex, run, base_axioms=ctx.axioms)
     recs = []
@@ -667,6 +671,16 @@ def ob_tlv_step(prog):
                     good = False
                 else:
                     good = and_(c_item, eq(tv.get('kind'), t), eq(vs.start, O + 3), eq(vs.end, O + 3 + ln), eq(o2, O + 3 + ln))
+                    # the item's own accessors and its owned copy (C16): len, is_empty, to_owned = same kind + content-preserving copy
+                    itn = [n for n in notes if n[0] == 'item']
+                    if itn:
+                        _, ilen, iempty, own = itn[0]
+                        ov = own.get('value') if isinstance(own, Struct) else None
+                        os_ = models_v2.as_slice(ov.fields[0]) if isinstance(ov, Enum) and ov.variant == 'Owned' else None
+                        if not (isinstance(os_, Str) and os_.buf is ctx.buf):
+                            good = False
+                        else:
+                            good = and_(good, eq(ilen, ln), eq(iempty, ln == 0), eq(own.get('kind'), t), eq(os_.start, O + 3), eq(os_.end, O + 3 + ln))
         # invariant preserved, and progress (every yielded item moves the cursor forward by >= 3 or to the end: at most n/3 + 1 items)
         inv2 = and_(ge(o2, 0), le(o2, L), or_(eq(o2, 0), ge(o2, 3), eq(o2, L)))
         prog_ok = True if r.variant == 'None' else or_(ge(o2, O + 3), and_(eq(o2, L), gt(L, O)))
@@ -824,7 +838,7 @@ def validate(prog, ctx, paths, native):
 
 
 # ------------------------------------------------------------------ drivers (called through SPECS[...]['modular'])
-FUNCTIONS = ['<v2::Header as TryFrom<&[u8]>>::try_from', 'v2::parse_addresses', 'v2::AddressFamily::byte_length', 'impl PartialResult for Result<T, E> / v2::ParseError (is_incomplete, is_complete)',
+FUNCTIONS = ['v2::TypeLengthValue::{len, is_empty, to_owned}', '<v2::Header as TryFrom<&[u8]>>::try_from', 'v2::parse_addresses', 'v2::AddressFamily::byte_length', 'impl PartialResult for Result<T, E> / v2::ParseError (is_incomplete, is_complete)',
              'v2::Header::{length, len, is_empty, address_family, address_bytes_end, address_bytes, tlv_bytes, tlvs, as_bytes, to_owned}',
              'v2::TypeLengthValues::{as_bytes, len, is_empty}', '<v2::TypeLengthValues as Iterator>::next', 'v2::Addresses::{address_family, len, is_empty}', 'From<AddressFamily> for u16', 'BitOr impls']
 FUNCTIONS_REBUILD = ['v2::Builder::{new, with_addresses, write_payload, write_internal, write_header, build}', 'v2::Writer', 'write_to for [u8], TypeLengthValues, TypeLengthValue, Addresses']
